@@ -6,7 +6,7 @@
   Outside the model, hence not claimed: real thread scheduling, clock jumps, hash collisions,
   /etc/localtime changing without its mtime changing.
 -/
-import Chrono.Proofs.LocalCacheL
+import Chrono.Proofs.LocalCacheNarrowL
 
 namespace Chrono.Props.C18
 open Chrono.M.LocalCache Chrono.Spec.LocalCache Chrono.Proofs.LocalCache Chrono.Extracted.LocalCache
@@ -51,24 +51,142 @@ theorem selection_table (W : World) :
   ⟨local_eq W none, rfl, by rw [local_eq]; rfl, row_colon_abs W, row_colon_rel W, row_plain_file W,
    row_plain_rule W, fun tz => (row_fallback W tz).1, fun tz => (row_fallback W tz).2⟩
 
+/-- **Points the property text leaves open, as the code (and the specification) resolve them** —
+behaviour a user would not infer from the statement:
+1. a name that is both a file below a zoneinfo directory and a valid POSIX rule ("UTC", "EST5EDT") is
+   read as the FILE, never as the rule — also when that file cannot be read or is not TZif (then: the
+   system zone);
+2. with a leading ':' the rule reader is never used: `:EST5EDT` with no such file is an error (system
+   zone), not the rule;
+3. "exists" means "can be opened": the FIRST candidate that exists decides, even if it is a directory
+   or not TZif and a later zoneinfo directory holds a good file;
+4. `TZ=localtime` (exactly, no colon) means /etc/localtime, not `<zoneinfo>/localtime`;
+5. white space is trimmed only for the rule reading: the file lookup uses the string as it is. -/
+theorem open_points_resolved (W : World) :
+    (∀ tz p, tz ≠ [] → tz ≠ localtimeWord → tz.head? ≠ some colon → fileNamed W tz = some p →
+      named W (some tz) = zoneIn W p ∧ (∀ s c, named W (some tz) ≠ some (.rule s c)) ∧
+      (zoneIn W p = none → zoneFor W (some tz) = (systemZone W).getD .utc)) ∧
+    (∀ n s c, named W (some (colon :: n)) ≠ some (.rule s c)) ∧
+    (∀ n, fileNamed W n = (candidates n).find? (exists_ W)) ∧
+    (∀ p, exists_ W p = true ↔ W.fs p ≠ .absent) ∧
+    named W (some localtimeWord) = zoneIn W etcLocaltime ∧
+    (∀ tz, tz ≠ [] → tz ≠ localtimeWord → tz.head? ≠ some colon → fileNamed W tz = none →
+      named W (some tz) = (W.rule (trimmed tz)).map (Zone.rule (trimmed tz))) := by
+  have hz : ∀ p s c, zoneIn W p ≠ some (.rule s c) := by
+    intro p s c h
+    unfold zoneIn at h
+    split at h <;> simp at h
+  refine ⟨?_, ?_, fun _ => rfl, ?_, rfl, ?_⟩
+  · intro tz p h0 h1 h2 hf
+    have e : named W (some tz) = zoneIn W p := by rw [← local_eq]; exact row_plain_file W tz p h0 h1 h2 hf
+    refine ⟨e, fun s c => by rw [e]; exact hz p s c, fun hn => ?_⟩
+    unfold zoneFor; rw [e, hn]; rfl
+  · intro n s c h
+    rw [named_cons] at h
+    have h1 : ¬ (colon :: n = localtimeWord) := by simp [colon, localtimeWord]
+    rw [if_neg h1, if_pos rfl] at h
+    cases hf : fileNamed W n with
+    | none => rw [hf] at h; simp at h
+    | some p => rw [hf] at h; exact hz p s c h
+  · intro p; unfold exists_; simp
+  · intro tz h0 h1 h2 hf
+    rw [← local_eq]; exact row_plain_rule W tz h0 h1 h2 hf
+
 /-- the cache is reused exactly while less than one second has passed on a clock that did not go
 backwards -/
 theorem reuse_window (last now : Nat) :
     within_window last now = true ↔ last ≤ now ∧ now - last < ONE_SECOND :=
   within_window_iff last now
 
-/-- A change of TZ is honoured by every conversion made at least one second later, on every
-thread: in any history of a process started with TZ = `e0` at clock `k0` (no conversions before),
-of the form `p1 ++ [change] ++ p2` where `p2` changes TZ no more and lasts ≥ 1 s, a conversion made
-next on any thread `t` in either direction uses the zone demanded for the current value of TZ.
-Assumption: the hash is injective on the TZ values of the history. -/
+/-- **Every conversion uses the zone of a value TZ had within the last second.**  For every history
+`h` of a process started with TZ = `e0` at clock `k0` (any mixture of changes of TZ, waiting,
+conversions on any threads, threads starting) and a conversion made next on any thread `t` in either
+direction: the history splits as `h = q ++ r` where less than one second passes in `r`, and the
+conversion uses the zone demanded for the value TZ had after `q`.  (Model assumptions as everywhere in
+this file: atomic steps, a clock that does not go backwards; the hash is injective on the TZ values of
+the history.) -/
+theorem honoured_within_last_second (W : World) (e0 : EnvVal) (k0 : Nat) (h : List Step)
+    (hinj : InjOn W (valuesOf e0 h)) (t : Nat) (localDir : Bool) :
+    ∃ q r, h = q ++ r ∧ elapsed r < ONE_SECOND ∧
+      zoneOfStep (step W (exec W (init e0 k0) h) (.convert t localDir)) =
+        some (zoneFor W (env_var (envAfter e0 q))) :=
+  honoured_within_last_second' W e0 k0 h hinj t localDir
+
+/-- **A change of TZ is honoured by EVERY conversion made at least one second later** — whatever
+happens in between, further changes of TZ included: if the history is `a ++ [chg] ++ b` and at least
+one second passes in `b`, the zone used is the one demanded for the value TZ had at some point `c` at
+or after `chg` (and less than one second back): never the value from before `chg`. -/
+theorem honoured_every_change (W : World) (e0 : EnvVal) (k0 : Nat) (a b : List Step) (chg : Step)
+    (hwait : ONE_SECOND ≤ elapsed b)
+    (hinj : InjOn W (valuesOf e0 (a ++ chg :: b))) (t : Nat) (localDir : Bool) :
+    ∃ c r, b = c ++ r ∧ elapsed r < ONE_SECOND ∧
+      zoneOfStep (step W (exec W (init e0 k0) (a ++ chg :: b)) (.convert t localDir)) =
+        some (zoneFor W (env_var (envAfter e0 (a ++ chg :: c)))) := by
+  obtain ⟨q, r, e, hr, hz⟩ := honoured_within_last_second W e0 k0 (a ++ chg :: b) hinj t localDir
+  obtain ⟨c, hq, hb⟩ := split_after_change a b q r chg e (by omega)
+  exact ⟨c, r, hb, hr, by rw [hz, hq]⟩
+
+/-- the special case in which TZ does not change again after `chg` (the former main theorem): the
+conversion uses the zone demanded for the current value of TZ -/
 theorem honoured_after_1s (W : World) (e0 : EnvVal) (k0 : Nat) (p1 p2 : List Step) (chg : Step)
-    (hchg : isChange chg = true) (hno : ∀ x ∈ p2, isChange x = false)
+    (hno : ∀ x ∈ p2, isChange x = false)
     (hwait : ONE_SECOND ≤ elapsed p2)
     (hinj : InjOn W (valuesOf e0 (p1 ++ chg :: p2))) (t : Nat) (localDir : Bool) :
     zoneOfStep (step W (exec W (init e0 k0) (p1 ++ chg :: p2)) (.convert t localDir)) =
+      some (zoneFor W (env_var (envAfter e0 (p1 ++ chg :: p2)))) := by
+  obtain ⟨c, r, hb, _, hz⟩ := honoured_every_change W e0 k0 p1 p2 chg hwait hinj t localDir
+  rw [hz]
+  have e1 : p1 ++ chg :: p2 = (p1 ++ chg :: c) ++ r := by rw [hb]; simp
+  have e2 : envAfter e0 ((p1 ++ chg :: c) ++ r) = envAfter e0 (p1 ++ chg :: c) := by
+    rw [envAfter_append (a := p1 ++ chg :: c)]
+    exact envAfter_nochange _ r (fun x hx => hno x (by rw [hb]; exact List.mem_append_right _ hx))
+  rw [e1, e2]
+
+/-- `honoured_after_1s` under the narrowest assumption on the hash that the mechanism allows
+(`hash_collision_is_not_covered` shows it cannot be dropped): no TZ value that occurred up to the
+last change has the same hash as the value that change set, unless it is that value.  Collisions
+among older values are harmless; and when the last change unsets TZ (or sets it to non-text) nothing
+at all is assumed. -/
+theorem honoured_after_1s_narrow (W : World) (e0 : EnvVal) (k0 : Nat) (p1 p2 : List Step) (chg : Step)
+    (hno : ∀ x ∈ p2, isChange x = false) (hwait : ONE_SECOND ≤ elapsed p2)
+    (hsep : ∀ cur, env_var (envAfter e0 (p1 ++ [chg])) = some cur →
+      ∀ v ∈ valuesOf e0 (p1 ++ [chg]), W.hash v = W.hash cur → v = cur)
+    (t : Nat) (localDir : Bool) :
+    zoneOfStep (step W (exec W (init e0 k0) (p1 ++ chg :: p2)) (.convert t localDir)) =
       some (zoneFor W (env_var (envAfter e0 (p1 ++ chg :: p2)))) :=
-  honoured_after_1s' W e0 k0 p1 p2 chg hchg hno hwait hinj t localDir
+  honoured_after_1s_narrow' W e0 k0 p1 p2 chg hno hwait hsep t localDir
+
+/-- **What the caller sees.**  The theorems above name the zone the cache lookup yields; a public
+conversion returns what that one zone answers (`Lookups`: the zone's own lookup functions, C05/C16),
+in the direction asked for.  For every history: both `offset_from_utc_datetime` and
+`offset_from_local_datetime`, called next on any thread, return the answer of the zone demanded for
+the value TZ had at a point less than one second back. -/
+theorem honoured_result {β : Type} (L : Lookups β) (W : World) (e0 : EnvVal) (k0 : Nat) (h : List Step)
+    (hinj : InjOn W (valuesOf e0 h)) (t : Nat) (d : Int) :
+    ∃ q r, h = q ++ r ∧ elapsed r < ONE_SECOND ∧
+      (Local.offset_from_utc_datetime L W (exec W (init e0 k0) h) t d).2 =
+        L.utc (zoneFor W (env_var (envAfter e0 q))) d ∧
+      (Local.offset_from_local_datetime L W (exec W (init e0 k0) h) t d).2 =
+        L.loc (zoneFor W (env_var (envAfter e0 q))) d := by
+  obtain ⟨q, r, e, hr, hz⟩ := honoured_within_last_second W e0 k0 h hinj t false
+  have hz' : (inner_offset W (exec W (init e0 k0) h) t).2.1 = zoneFor W (env_var (envAfter e0 q)) :=
+    Option.some.inj hz
+  exact ⟨q, r, e, hr, by show L.utc _ d = _; rw [hz'], by show L.loc _ d = _; rw [hz']⟩
+
+/-- … and for a newly started thread: the answer of the zone demanded for the value TZ has at that
+moment, in both directions -/
+theorem new_thread_result {β : Type} (L : Lookups β) (W : World) (s0 : State) (pre mid : List Step)
+    (t : Nat) (d : Int) (hmid : noConvertOn t mid = true) :
+    (Local.offset_from_utc_datetime L W (exec W s0 (pre ++ .spawn t :: mid)) t d).2 =
+      L.utc (zoneFor W (env_var (exec W s0 (pre ++ .spawn t :: mid)).env)) d ∧
+    (Local.offset_from_local_datetime L W (exec W s0 (pre ++ .spawn t :: mid)) t d).2 =
+      L.loc (zoneFor W (env_var (exec W s0 (pre ++ .spawn t :: mid)).env)) d := by
+  have h := new_thread_immediate' W s0 pre mid t false hmid
+  have hz : (inner_offset W (exec W s0 (pre ++ .spawn t :: mid)) t).2.1 =
+      zoneFor W (env_var (exec W s0 (pre ++ .spawn t :: mid)).env) := by
+    have := congrArg (Option.map Prod.fst) h
+    exact Option.some.inj this
+  exact ⟨by show L.utc _ d = _; rw [hz], by show L.loc _ d = _; rw [hz]⟩
 
 /-- while TZ is never changed, every conversion uses the zone demanded for it (no assumption) -/
 theorem honoured_without_change (W : World) (e0 : EnvVal) (k0 : Nat) (h : List Step)
@@ -83,6 +201,15 @@ theorem cache_invariant (W : World) (e0 : EnvVal) (k0 : Nat) (h : List Step)
     (hinj : InjOn W (valuesOf e0 h)) :
     Inv W (valuesOf e0 h) (exec W (init e0 k0) h) (ghostRun W (init e0 k0) 0 h) :=
   exec_ok W _ hinj h _ 0 (init_ok W e0 k0 h) (stepIn_valuesOf e0 h)
+
+/-- the invariant behind `honoured_within_last_second`, for any reachable state: environment and
+clock are those of the history, and every cache records the point `q` of the history at which it was
+last checked: `last_checked` is the clock after `q`, source and zone are those of TZ's value after `q` -/
+theorem cache_records_history (W : World) (e0 : EnvVal) (k0 : Nat) (h : List Step)
+    (hinj : InjOn W (valuesOf e0 h)) :
+    HistInv W e0 k0 h (exec W (init e0 k0) h) := by
+  have := exec_at W e0 k0 h [] (init e0 k0) (by simpa using hinj) (init_at W e0 k0)
+  simpa using this
 
 /-- A change of TZ is honoured immediately on a new thread: after thread `t` starts, whatever else
 happens (changes of TZ, waiting, conversions on other threads, other threads starting), its first
@@ -105,6 +232,32 @@ theorem one_zone_per_conversion {β : Type} (L : Lookups β) (W : World) (s : St
       ((Local.offset_from_local_datetime L W s t d).1.caches t).map Cache.zone = some z ∧
       zoneOfStep (step W s (.convert t false)) = some z ∧ zoneOfStep (step W s (.convert t true)) = some z :=
   one_zone' L W s t d
+
+/-- **Every public entry point performs exactly one zone lookup.**  `Api.*` (Model/LocalCache.lean)
+writes `impl TimeZone for Local`, `Local::now` and the trait defaults they reach as the calls they
+make, over a state that counts `inner::offset_from_*_datetime` calls.  For each of the eight entry
+points: the counter goes up by exactly one; the process state afterwards is that of one cache lookup;
+the answer is the lookup function of the right direction (UTC → `L.utc`, local → `L.loc`; the date
+forms ask at midnight, `now` at the instant `Utc::now()` returned) applied to the one zone that lookup
+yielded, which is the zone left in the thread's cache.  Hence no conversion mixes two zones, and none
+uses the wrong direction.  (Driver op `lc.off` runs these functions; the harness compares their answer
+with `Local`'s for readings where the two directions differ.) -/
+theorem one_lookup_per_entry_point {β : Type} (L : Lookups β) (W : World) (c : Counted) (t : Nat) (d : Int) :
+    OneLookup L W c t d false (Api.offset_from_utc_datetime L W c t d).1 (Api.offset_from_utc_datetime L W c t d).2 ∧
+    OneLookup L W c t d true (Api.offset_from_local_datetime L W c t d).1 (Api.offset_from_local_datetime L W c t d).2 ∧
+    OneLookup L W c t d false (Api.offset_from_utc_date L W c t d).1 (Api.offset_from_utc_date L W c t d).2 ∧
+    OneLookup L W c t d true (Api.offset_from_local_date L W c t d).1 (Api.offset_from_local_date L W c t d).2 ∧
+    (OneLookup L W c t d false (Api.from_utc_datetime L W c t d).1 (Api.from_utc_datetime L W c t d).2.2 ∧
+      (Api.from_utc_datetime L W c t d).2.1 = d) ∧
+    (OneLookup L W c t d true (Api.from_local_datetime L W c t d).1 (Api.from_local_datetime L W c t d).2.2 ∧
+      (Api.from_local_datetime L W c t d).2.1 = d) ∧
+    (OneLookup L W c t d false (Api.with_timezone L W c t d).1 (Api.with_timezone L W c t d).2.2 ∧
+      (Api.with_timezone L W c t d).2.1 = d) ∧
+    (OneLookup L W c t d false (Api.now L W c t d).1 (Api.now L W c t d).2.2 ∧ (Api.now L W c t d).2.1 = d) :=
+  ⟨inner_counted_one L W c t d false, inner_counted_one L W c t d true, inner_counted_one L W c t d false,
+   inner_counted_one L W c t d true, ⟨inner_counted_one L W c t d false, rfl⟩,
+   ⟨inner_counted_one L W c t d true, rfl⟩, ⟨inner_counted_one L W c t d false, rfl⟩,
+   ⟨inner_counted_one L W c t d false, rfl⟩⟩
 
 /-! ### witnesses: non-vacuity, and that the hypotheses cannot be dropped -/
 
@@ -156,6 +309,25 @@ theorem window_is_sharp :
 example : InjOn (W0 sumHash) (valuesOf .unset [.setTZ [47, 97], .convert 0 false, .setTZ [98], .advance 1000000000]) := by
   decide
 
+/-- histories with changes inside the last second.  First (the audit's example): set A; convert;
++0.6 s; set B; +0.6 s; set C; +0.5 s; convert — 1.1 s after B: `honoured_every_change` with `chg` =
+set B says the zone is that of B or of C, never A; the cache is 1.7 s old, is re-read, and gives C.
+Second: a conversion 0.4 s after B on a cache filled 0.5 s before B still answers A (0.9 s old:
+`honoured_within_last_second` with `q` = the history up to the first conversion); 0.6 s later it has
+moved on to the value set in between -/
+example : InjOn (W0 sumHash) (valuesOf .unset
+      [.setTZ [47, 97], .convert 0 false, .advance 600000000, .setTZ [98], .advance 600000000,
+       .setTZ [88, 89, 90, 45, 51], .advance 500000000]) ∧
+    run (W0 sumHash) (init .unset 100)
+      [.setTZ [47, 97], .convert 0 false, .advance 600000000, .setTZ [98], .advance 600000000,
+       .setTZ [88, 89, 90, 45, 51], .advance 500000000, .convert 0 false] =
+      [(.tzif [47, 97] 1, .created), (.rule [88, 89, 90, 45, 51] 3, .reloaded)] ∧
+    run (W0 sumHash) (init .unset 100)
+      [.setTZ [47, 97], .convert 0 false, .advance 500000000, .setTZ [98], .advance 400000000,
+       .convert 0 false, .setTZ [88, 89, 90, 45, 51], .advance 600000000, .convert 0 true] =
+      [(.tzif [47, 97] 1, .created), (.tzif [47, 97] 1, .reused),
+       (.rule [88, 89, 90, 45, 51] 3, .reloaded)] := by decide
+
 /-- the assumption on the hash cannot be dropped: with a hash that collides on the two values, the
 change is never noticed (2 s and 3 s later the old zone is still used) -/
 theorem hash_collision_is_not_covered :
@@ -178,5 +350,28 @@ example :
        (.tzif (usrShareZoneinfo ++ [47, 98]) 2, .reloaded),
        (.tzif (usrShareZoneinfo ++ [47, 98]) 2, .rechecked),
        (.tzif etcLocaltime 7, .reloaded)] := by decide
+
+/-- the five points on concrete values: "b" is a zone file and (here) also a rule; ":XYZ-3" is not
+read as a rule; "/d" (a directory) and "/x" (not TZif) exist and therefore decide; padded "b" is not
+found as a file -/
+example :
+    current_zone { W0 sumHash with rule := fun _ => some 3 } (some [98]) = .tzif (usrShareZoneinfo ++ [47, 98]) 2 ∧
+    current_zone (W0 sumHash) (some [58, 88, 89, 90, 45, 51]) = .tzif (usrShareZoneinfo ++ [47, 83]) 9 ∧
+    current_zone (W0 sumHash) (some [88, 89, 90, 45, 51]) = .rule [88, 89, 90, 45, 51] 3 ∧
+    current_zone { W0 sumHash with rule := fun _ => some 3 } (some [47, 100]) = .tzif (usrShareZoneinfo ++ [47, 83]) 9 ∧
+    current_zone { W0 sumHash with rule := fun _ => some 3 } (some [47, 120]) = .tzif (usrShareZoneinfo ++ [47, 83]) 9 ∧
+    current_zone { W0 sumHash with rule := fun s => if s = [98] then some 4 else none } (some [32, 98]) = .rule [98] 4 := by
+  decide
+
+/-- with the colliding hash of `hash_collision_is_not_covered`: values "b" and "g" collide, yet after
+unsetting TZ (no assumption needed) and after setting a value of another length the change is honoured -/
+example :
+    run (W0 lenHash) (init .unset 100)
+      [.setTZ [98], .convert 0 false, .setTZ [103], .advance 2000000000, .convert 0 false,
+       .unsetTZ, .advance 1000000000, .convert 0 false,
+       .setTZ [47, 97], .advance 1000000000, .convert 0 true] =
+      [(.tzif (usrShareZoneinfo ++ [47, 98]) 2, .created),
+       (.tzif (usrShareZoneinfo ++ [47, 98]) 2, .rechecked),
+       (.tzif etcLocaltime 7, .reloaded), (.tzif [47, 97] 1, .reloaded)] := by decide
 
 end Chrono.Props.C18
